@@ -165,6 +165,53 @@ func VH_C13_scan_eq() {
 	verifReach("end")
 }
 
+// Stored NULL keys under keyed scans, in both tiers: NULL equals NULL in the
+// index order (it is the smallest value), so an equality scan with a NULL key
+// yields exactly the NULL entries and a from-key scan from NULL yields all.
+//verif:prop C13,C03
+//verif:bounds ascending index of one leaf of 3 entries or interior entry + two leaves of 1 entry (3 entries), the first 1..3 of them with a NULL key column (others any int64, rowids any int64 consistent with index order); keys of 0..3 columns as VH_C13_scan_min (column 0 NULL or any int64); ScanEq and ScanMin
+func VH_C13_null_entries() {
+	e := &vhIndexEnv{vhTreeEnv: vhNewEnv()}
+	e.nulls = 1 + verifChoice(3)
+	var root int
+	if verifBool() {
+		root = e.index(1, 3)
+	} else {
+		root = e.index(2, 1)
+	}
+	in := &Index{db: e.db, root: root}
+	key, kv, nk := vhKey(e)
+	var got []Record
+	cb := func(r Record) bool { got = append(got, r); return false }
+	var want []vhEnt
+	var err error
+	if verifBool() {
+		err = in.ScanEq(key, cb)
+		for _, en := range e.ents {
+			if vhEntEQ(en, kv, nk) {
+				want = append(want, en)
+			}
+		}
+		verifReach("eq")
+	} else {
+		err = in.ScanMin(key, cb)
+		for _, en := range e.ents {
+			if vhEntGE(en, kv, nk, false) {
+				want = append(want, en)
+			}
+		}
+		verifReach("min")
+	}
+	verifAssert(err == nil, "keyed scan over NULL entries succeeds")
+	verifAssert(len(got) == len(want), "keyed scan over NULL entries yields exactly the selected entries")
+	if len(got) == len(want) {
+		for i := range got {
+			verifAssert(vhSameEnt(got[i], want[i]), "keyed scan over NULL entries: content")
+		}
+	}
+	verifReach("end")
+}
+
 //verif:shards 8
 //verif:bounds as VH_C13_scan_min with two keys (lower, upper); trees of <= 5 entries
 func VH_C13_scan_range() {
